@@ -95,4 +95,13 @@ CONTRACTS = [
         modifies=[],
         abstractions=ABS,
     ),
+    # the factory through which compiled DDE models obtain their history (static method): a growable history whose only record is
+    # the initial state at t0 — the constructor is used through its contract
+    dict(
+        name="BaseBackend.get_hist_func", prop="C19", target=f"{F}::BaseBackend.get_hist_func",
+        params={"y": "row", "t0": "real"},
+        ensures=["result._n == 1", "result._t[0] == t0", "result._y[0] == y", "result._growable"],
+        modifies=[], abstractions=ABS, returns_any=True,
+    ),
 ]
+CONTRACTS[-1]["constructors"] = {"DDEHistory": CONTRACTS[0]}
